@@ -1063,3 +1063,22 @@ func sortedKeys[V any](m map[string]V) []string {
 	sort.Strings(ks)
 	return ks
 }
+
+// StrLt: lexicographic (bytewise) a < b, exact on the first strLtDepth positions; pairs that agree on all of them and are both
+// longer are ordered by the uninterpreted predicate str.lt.tail (an over-approximation: any relation).
+const strLtDepth = 4
+
+func (ts *TermStore) StrLt(a, b *Term) *Term {
+	if a.IsConst() && b.IsConst() {
+		return ts.Bool(a.s < b.s)
+	}
+	la, lb := ts.SLen(a), ts.SLen(b)
+	acc := ts.App("str.lt.tail", BoolSort, a, b)
+	for i := strLtDepth - 1; i >= 0; i-- {
+		ii := ts.Int(int64(i))
+		ca, cb := ts.SAt(a, ii), ts.SAt(b, ii)
+		inner := ts.Ite(ts.BvUlt(ca, cb), ts.True(), ts.Ite(ts.BvUlt(cb, ca), ts.False(), acc))
+		acc = ts.Ite(ts.ILe(la, ii), ts.ILt(ii, lb), ts.Ite(ts.ILe(lb, ii), ts.False(), inner))
+	}
+	return acc
+}
